@@ -235,6 +235,19 @@ class _Aligner:
         except Exception:
             return False
 
+    def _negation_of(self, a, b) -> bool:
+        """test a is the negation of test b (canonically)"""
+        def t(e):
+            w = ast.If(test=copy.deepcopy(e), body=[ast.Pass()], orelse=[])
+            ast.fix_missing_locations(w)
+            return ast.dump(_Canon().visit(_alpha(w)).test)
+        try:
+            na = ast.UnaryOp(op=ast.Not(), operand=copy.deepcopy(a))
+            nb = ast.UnaryOp(op=ast.Not(), operand=copy.deepcopy(b))
+            return t(na) == t(b) or t(a) == t(nb)
+        except Exception:
+            return False
+
     def pair(self, cur, ref):
         """the statement to keep for `cur`, given its counterpart `ref`; None if they are not counterparts"""
         if ast.dump(cur) == ast.dump(ref):
@@ -244,6 +257,11 @@ class _Aligner:
         if self.same(cur, ref):
             self.n += 1
             return _relocate(ref, cur)
+        if isinstance(cur, ast.If) and isinstance(ref, ast.If) and cur.orelse and ref.orelse and self._negation_of(cur.test, ref.test):
+            # the same decision with the branches the other way round (`if not len(x): A else: B` against `if len(x) == 0` ... the polarity step of the normal
+            # form un-negates `not e` only): take the reference's test and order
+            cur.test, cur.body, cur.orelse = copy.deepcopy(ref.test), cur.orelse, cur.body
+            self.n += 1
         alt = _other_conditional_form(cur)
         if alt is not None and type(alt) is type(ref) and self.same(alt, ref):
             self.n += 1
